@@ -61,19 +61,19 @@ SPEC = dict(
         "ibbBlockSize (first member; layout guarded at start-up and by the <open/> the real sender emits)",
         "`drop` = block lost while the sender is told it arrived (forged result); `lose` = block lost and nobody answers; `wsender` = "
         "block delivered under another JID so that the answer goes elsewhere; `timeout` = the in-band inactivity timer (repo commit "
-        "afd7dc9, 120 s) of every job in TransferState fires (the harness finds the jobs' QTimer children and fires them; no hook in "
+        "72eab57, 120 s) of every job in TransferState fires (the harness finds the jobs' QTimer children and fires them; no hook in "
         "the library). After drop/swap/wsid/eclose/flip the receiving job finishes with FileCorruptError (the sender with "
         "ProtocolError when it got an error response); after lose/wsender both jobs end with ProtocolError once the interval has "
         "elapsed (single_fault_ends_in_error). A job still in StartState (the <open/> or its answer got lost) has no timer and "
         "waits for ever: not a block fault, outside the property's wording, reported to the coordinator",
-        "a failed or short QIODevice::write ends the receiving job with FileAccessError (repo commit 705738b); counter and hash only "
+        "a failed or short QIODevice::write ends the receiving job with FileAccessError (repo commit 675e9c1); counter and hash only "
         "see complete blocks; the model keeps device content (acc) and hash input (fed) apart and the theorems are about acc. "
-        "accept(filePath): the job owns, flushes and closes the file (repo commit e785bd1) - oracle only",
+        "accept(filePath): the job owns, flushes and closes the file (repo commit 38165f0) - oracle only",
         "two open recorded findings: no hash announced -> altered block accepted; neither size nor hash announced -> truncated "
         "stream accepted. Both are 'nothing to verify against' (XEP-0096 makes the hash optional; an in-band <close/> is the only "
         "end marker and qxmpp itself omits size for empty/unknown-length sources), so they are recorded, not fixed. Fixed in the "
-        "library and kept as passing corpus entries: 16-bit sequence wrap (49cbe2e), short write accepted (705738b), accept(path) "
-        "file incomplete / write error unnoticed (e785bd1), lost stanza hangs for ever (afd7dc9)",
+        "library and kept as passing corpus entries: 16-bit sequence wrap (49cbe2e), short write accepted (675e9c1), accept(path) "
+        "file incomplete / write error unnoticed (38165f0), lost stanza hangs for ever (72eab57)",
         "QByteArray::fromBase64 skips invalid characters: a <data/> element with junk in its text is accepted as the bytes that remain "
         "(XEP-0047 asks for <bad-request/>); a block larger than the negotiated block size is accepted; both are covered by the "
         "correspondence and do not affect the integrity claim (final size/hash check)",
